@@ -1,7 +1,7 @@
 //! Minimisation of a failing scenario: smaller operation lists, fewer and simpler fault events,
 //! simpler images, smaller offsets — as long as the *same oracle* keeps failing.
 
-use crate::exec::{Sim, Violation};
+use crate::exec::Violation;
 use crate::scenario::{ErrKind, Op, Plan, Scenario};
 
 pub struct Shrunk {
@@ -11,7 +11,8 @@ pub struct Shrunk {
 }
 
 struct Ctx<'a> {
-    sim: &'a mut Sim,
+    /// Executes a scenario (in this process or in a fresh one) and reports its violation, if any.
+    run: &'a mut dyn FnMut(&Scenario) -> Option<Violation>,
     oracle: String,
     executions: usize,
     max_exec: usize,
@@ -23,8 +24,7 @@ impl Ctx<'_> {
             return None;
         }
         self.executions += 1;
-        let r = self.sim.execute(sc);
-        match r.violation {
+        match (self.run)(sc) {
             Some(v) if v.oracle == self.oracle => Some(v),
             _ => None,
         }
@@ -136,9 +136,14 @@ fn offset_candidates(off: usize) -> Vec<usize> {
     v
 }
 
-pub fn shrink(sim: &mut Sim, sc: &Scenario, v: &Violation, max_exec: usize) -> Shrunk {
+pub fn shrink(
+    run: &mut dyn FnMut(&Scenario) -> Option<Violation>,
+    sc: &Scenario,
+    v: &Violation,
+    max_exec: usize,
+) -> Shrunk {
     let mut cx = Ctx {
-        sim,
+        run,
         oracle: v.oracle.clone(),
         executions: 0,
         max_exec,
